@@ -720,6 +720,14 @@ impl Instruction {
             Instruction::Capture(capture) => capture.frame.qubits.iter().collect(),
             Instruction::Pulse(pulse) => pulse.frame.qubits.iter().collect(),
             Instruction::RawCapture(raw_capture) => raw_capture.frame.qubits.iter().collect(),
+            Instruction::SetFrequency(SetFrequency { frame, .. })
+            | Instruction::SetPhase(SetPhase { frame, .. })
+            | Instruction::SetScale(SetScale { frame, .. })
+            | Instruction::ShiftFrequency(ShiftFrequency { frame, .. })
+            | Instruction::ShiftPhase(ShiftPhase { frame, .. }) => frame.qubits.iter().collect(),
+            Instruction::SwapPhases(SwapPhases { frame_1, frame_2 }) => {
+                frame_1.qubits.iter().chain(frame_2.qubits.iter()).collect()
+            }
             _ => vec![],
         }
     }
@@ -759,6 +767,18 @@ impl Instruction {
             Instruction::Capture(capture) => capture.frame.qubits.iter_mut().collect(),
             Instruction::Pulse(pulse) => pulse.frame.qubits.iter_mut().collect(),
             Instruction::RawCapture(raw_capture) => raw_capture.frame.qubits.iter_mut().collect(),
+            Instruction::SetFrequency(SetFrequency { frame, .. })
+            | Instruction::SetPhase(SetPhase { frame, .. })
+            | Instruction::SetScale(SetScale { frame, .. })
+            | Instruction::ShiftFrequency(ShiftFrequency { frame, .. })
+            | Instruction::ShiftPhase(ShiftPhase { frame, .. }) => {
+                frame.qubits.iter_mut().collect()
+            }
+            Instruction::SwapPhases(SwapPhases { frame_1, frame_2 }) => frame_1
+                .qubits
+                .iter_mut()
+                .chain(frame_2.qubits.iter_mut())
+                .collect(),
             _ => vec![],
         }
     }
